@@ -7,3 +7,29 @@ file of findings is read-only at run time; matchers never widen.
 
 def never(scn, v):
     return False
+
+
+def _events(v):
+    d = v.detail if isinstance(v.detail, dict) else {}
+    return set(d.get("events") or [])
+
+
+def r18_c02(scn, v):
+    """R18: tasks set to pausing/paused by a workflow pause are not resumed by the resume request;
+    a sibling completing afterwards flips the resumed workflow back to pausing, where a with-items
+    task waiting between batches is never offered its next items."""
+    return v.kind == "nothing-in-flight-while-pausing" and "resume-with-open-items" in _events(v)
+
+
+def r18_c03(scn, v):
+    return v.kind == "stuck-in-pausing" and "resume-with-open-items" in _events(v)
+
+
+def r21_c02(scn, v):
+    """R21: an action reported pending moves the workflow to pausing, but a with-items task that still
+    has items to offer stays `running` between batches: nothing is in flight, status stays pausing."""
+    return v.kind == "nothing-in-flight-while-pausing" and "pending-with-unoffered-items" in _events(v)
+
+
+def r21_c03(scn, v):
+    return v.kind == "stuck-in-pausing" and "pending-with-unoffered-items" in _events(v)
